@@ -76,7 +76,8 @@ def decorate(shapes, seed=0, feat=frozenset()):
             row["type"] = rnd.choice(["end group", "end_group"]) if shape == "end_group" else rnd.choice(["end repeat", "end_repeat"])
             f.rows.append(row)
             f.info.append(info)
-            f.stack.pop()
+            if f.stack:
+                f.stack.pop()
             continue
         if shape == "audit":
             row["type"] = "audit"
